@@ -26,7 +26,7 @@ func init() {
 	mc.Register(&mc.Property{
 		ID:    "C16",
 		Level: "exploration",
-		Rule: "E1 bounded-exhaustive enumeration: key sets = every non-empty subset (in sorted order) of the 13 strings of length ≤2 over {00,'a',ff}, each behind the stems of 0/7/8/9/16/17/24/31/32/33/64/65 bytes; every subset of 12 keys built from 4 stem variants (first byte 's'/0x00/0xff, eighth byte 0x80); every subset of the 13 strings of length ≤2 over {'a',80,c3} and over {7f,80,bf} (UTF-8 continuation and lead bytes); four large key sets taken whole (31, 63, 121 and 341 keys); every subset of the 15 strings of length ≤3 over {00,'a'} and every subset of size ≤4 of the 40 strings of length ≤3 over {00,'a',ff} behind stems of 0 and 8 bytes (thorough adds every subset of the 21 strings of length ≤2 over {00,01,'a',ff} and the subsets of size 5..6 of the 40 strings): FirstDiffBits on the set; New+CountPrefixes for every 0 ≤ s, s+2 ≤ e ≤ len and every m in {1,2,4,7,10,17}. " +
+		Rule: "E1 bounded-exhaustive enumeration: key sets = every non-empty subset (in sorted order) of the 13 strings of length ≤2 over {00,'a',ff}, each behind the stems of 0/7/8/9/16/17/24/31/32/33/64/65 bytes; every subset of 12 keys built from 4 stem variants (first byte 's'/0x00/0xff, eighth byte 0x80); every subset of the 13 strings of length ≤2 over {'a',80,c3} and over {7f,80,bf} (UTF-8 continuation and lead bytes); every subset of 5 short keys behind EVERY stem length 0..80; four large key sets taken whole (31, 63, 121 and 341 keys); every subset of the 15 strings of length ≤3 over {00,'a'} and every subset of size ≤4 of the 40 strings of length ≤3 over {00,'a',ff} behind stems of 0 and 8 bytes (thorough adds every subset of the 21 strings of length ≤2 over {00,01,'a',ff} and the subsets of size 5..6 of the 40 strings): FirstDiffBits on the set; New+CountPrefixes for every 0 ≤ s, s+2 ≤ e ≤ len and every m in {1,2,4,7,10,17}. " +
 			"Oracle: first differing index of the '0'/'1' renderings (8·min(len) for a byte-prefix); m0 = minimum over the range; counter i = number of distinct values of the bit string truncated to m0+i bits (adjacent-compare count in the hot path, cross-checked against a map count). A case is one call; non-trivial when the range holds ≥3 keys or the set has a shared stem; key sets that re-occur in a later family are executed again but counted once.",
 		Assumptions: []string{"key sets are drawn from small byte alphabets behind fixed stems; the 8-byte chunk boundaries are crossed through the stems"},
 		Run:         c16Run,
@@ -159,6 +159,12 @@ func c16Families(c *mc.Ctx) []c16Family {
 		}
 	}
 	f = append(f, c16Family{"4 stem variants × {'',00,'a'}", sortS(mixed), []int{0}, 0})
+	// every stem length 0..80 (so the first difference falls on every byte position up to 80)
+	var allStems []int
+	for n := 0; n <= 80; n++ {
+		allStems = append(allStems, n)
+	}
+	f = append(f, c16Family{"5 short keys behind every stem length 0..80", sortS([]string{"", "\x00", "a", "a\xff", "b"}), allStems, 0})
 	// byte classes: UTF-8 continuation bytes (0x80..0xbf), a lead byte, 0x7f/0x80 neighbours
 	f = append(f,
 		c16Family{"len≤2 over {'a',80,c3}", sortS(gen.Strings([]byte{'a', 0x80, 0xc3}, 2)), []int{0, 8}, 0},
